@@ -201,6 +201,10 @@ pub fn install_panic_hook() {
     }));
 }
 
+pub fn last_panic() -> (String, String) {
+    take_panic()
+}
+
 fn take_panic() -> (String, String) {
     LAST_PANIC
         .with(|p| p.borrow_mut().take())
